@@ -10,6 +10,22 @@ package c14
 // scope). Afterwards a NEW server is opened on EVERY copy and must show the catalogue
 // from before the request or the one after it, internally consistent, with every enabled
 // task executing again.
+//
+// Whatever else a boundary shows, it must satisfy the entity-wise rule (entityWise below):
+// no definition is lost (a task / template that exists before the request and is not deleted
+// by it is shown under its id - or, while it is renamed, under the old or the new id), nothing
+// is shown that neither catalogue holds, every task and template shown carries its definition
+// from before or from after the request, and every task shown is executing iff it is enabled
+// and its start succeeds. A boundary that breaks this rule is reported under its own signature
+// (crash/<kind>/lost/..., /unexpected/..., /mixed/...), never under crash/<kind>/partial/...,
+// the family of the known non-atomic requests.
+//
+// Unit CrashNonAtomic - the same enumeration for the target requests the Crash unit leaves
+// out (the known non-atomic kinds: rename, create-from-template, template assignment, delete
+// of a templated task, template update with tasks, template rename), judged by the
+// entity-wise rule alone: a boundary may show a mixture of the two catalogues (that is the
+// known finding), but nothing may be lost, invented or half-written, and the last boundary
+// holds the post-request catalogue.
 
 import (
 	"fmt"
@@ -86,7 +102,175 @@ func classifyCrash(op Op, pre, post *model, o *observed, dPre, dPost *diff) stri
 	return "vs-pre:" + k(dPre) + ",vs-post:" + k(dPost)
 }
 
-func runCrash(c Case, cc *kit.Case) {
+// entityWise checks one recovered boundary object by object. It is implied by the recovery
+// oracle (the catalogue is the pre-request or the post-request one) and is what remains of the
+// property statement for requests that are known not to be atomic: "the API shows exactly the
+// tasks that were successfully defined with their last accepted definition ... after a restart
+// every enabled task is executing again". pre and post are the catalogues as a restart leaves
+// them (restarted()). It returns "" or the class of the first violation:
+//
+//	lost/...        a task / template that is defined before the request and not deleted by it
+//	                (neither as answered nor as asked) is not shown, neither under its id nor
+//	                (during its rename) under the new id
+//	unexpected/...  a task / template is shown under an id that no catalogue holds (before the
+//	                request, after it, asked for by it)
+//	mixed/...       an object is shown with a definition that is neither the one before the
+//	                request, nor the one after it, nor the one the request asks for (a request cut
+//	                short by a crash was never answered: what it asks for may be there or not)
+//	executing ...   a shown task is not executing although it is enabled and its start succeeds
+//	                (or the other way round)
+func entityWise(op Op, pre, post *model, o *observed) (class, msg string, noted []string) {
+	// asked: the catalogue the request asks for. A request cut short by a crash has not been
+	// answered: what it asks for may be there or not, whatever the answer would have been
+	// (a template update that is rolled back and rejected in the end has written the new
+	// definitions first).
+	asked, applicable := pre.apply(op)
+	if applicable {
+		asked.restarted()
+	} else {
+		asked = post
+	}
+	taskRename := op.K == "update" && op.NewID != "" && op.NewID != op.ID
+	tmplRename := op.K == "tupdate" && op.NewID != "" && op.NewID != op.ID
+	for _, id := range sortedKeys(pre.tasks) {
+		_, inPost := post.tasks[id]
+		_, inAsked := asked.tasks[id]
+		carriers := []string{id}
+		if _, taken := pre.tasks[op.NewID]; taskRename && id == op.ID && !taken {
+			carriers = append(carriers, op.NewID)
+			if _, ok := post.tasks[op.NewID]; ok {
+				inPost = true
+			}
+			if _, ok := asked.tasks[op.NewID]; ok {
+				inAsked = true
+			}
+		}
+		if !inPost || !inAsked {
+			continue
+		}
+		shown := false
+		for _, c := range carriers {
+			if _, ok := o.tasks[c]; ok {
+				shown = true
+			}
+		}
+		if !shown {
+			if len(carriers) == 2 {
+				return "lost/task-under-neither-id", fmt.Sprintf("task %q is being renamed to %q: it is defined before and after the request but the API shows it under neither id - the definition is lost", id, op.NewID), noted
+			}
+			return "lost/task-missing", fmt.Sprintf("task %q is defined before and after the request but the API does not show it - the definition is lost", id), noted
+		}
+	}
+	for _, id := range sortedKeys(pre.tmpls) {
+		_, inPost := post.tmpls[id]
+		_, inAsked := asked.tmpls[id]
+		carriers := []string{id}
+		if _, taken := pre.tmpls[op.NewID]; tmplRename && id == op.ID && !taken {
+			carriers = append(carriers, op.NewID)
+			if _, ok := post.tmpls[op.NewID]; ok {
+				inPost = true
+			}
+			if _, ok := asked.tmpls[op.NewID]; ok {
+				inAsked = true
+			}
+		}
+		if !inPost || !inAsked {
+			continue
+		}
+		shown := false
+		for _, c := range carriers {
+			if _, ok := o.tmpls[c]; ok {
+				shown = true
+			}
+		}
+		if !shown {
+			if len(carriers) == 2 {
+				return "lost/template-under-neither-id", fmt.Sprintf("template %q is being renamed to %q: it is defined before and after the request but the API shows it under neither id", id, op.NewID), noted
+			}
+			return "lost/template-missing", fmt.Sprintf("template %q is defined before and after the request but the API does not show it", id), noted
+		}
+	}
+	same := func(w *mTask, g oTask) bool {
+		return g.Script == w.Script && g.Tmpl == w.Tmpl && (w.LooseDBRPs || sameDBRPs(g.DBRPs, w.DBRPs)) && sameVars(g.Vars, w.Vars) && g.Enabled == w.Enabled
+	}
+	if len(o.ghosts) > 0 {
+		return "executing-without-definition", fmt.Sprintf("the task master executes %v but the API shows no such task", o.ghosts), noted
+	}
+	for _, id := range sortedKeys(o.tasks) {
+		g := o.tasks[id]
+		var cands []*mTask
+		for _, m := range []*model{post, pre, asked} {
+			if w, ok := m.tasks[id]; ok {
+				cands = append(cands, w)
+			}
+		}
+		if len(cands) == 0 {
+			return "unexpected/task", fmt.Sprintf("the API shows task %s but no task %q is defined before or after the request, nor asked for by it", g, id), noted
+		}
+		var w *mTask
+		for _, c := range cands {
+			if same(c, g) {
+				w = c
+				break
+			}
+		}
+		if w == nil {
+			return "mixed/task-definition", fmt.Sprintf("task %s is shown with a definition that is neither the one before the request, nor the one after it, nor the one it asks for", g), noted
+		}
+		if isBadScript(w.Script) {
+			// a script that does not compile (only ever stored by a template update on its way
+			// to being rolled back): its start is refused whatever the dbrps are
+			if g.Executing {
+				return "executing", fmt.Sprintf("task %s is shown executing a script that does not compile", g), noted
+			}
+			if g.Enabled && g.Error == "" {
+				noted = append(noted, "enabled task whose start is refused at the restart has no error recorded")
+			}
+			continue
+		}
+		if d := w.checkExecuting(o); d != nil {
+			if d.kind == "start-error-lost" || d.kind == "run-error-lost" {
+				// The statement asks for "executing iff enabled and its start succeeded", which
+				// holds here; that the error of a refused start is recorded comes from
+				// client/API.md and is demanded where the definition was accepted by the API
+				// (pre- / post-request catalogue, Catalogue unit). An inner boundary can hold a
+				// definition that never passed the API's validation (a template update that is
+				// rolled back has stored a script that does not compile): Service.Open logs
+				// the refused start, startTask returns before saveLastError. Noted, not judged.
+				noted = append(noted, "enabled task whose start is refused at the restart has no error recorded")
+				continue
+			}
+			return d.kind, d.String(), noted
+		}
+	}
+	for _, id := range sortedKeys(o.tmpls) {
+		s := o.tmpls[id]
+		known, match := false, false
+		for _, m := range []*model{post, pre, asked} {
+			if w, ok := m.tmpls[id]; ok {
+				known = true
+				if w.Script == s {
+					match = true
+				}
+			}
+		}
+		if !known {
+			return "unexpected/template", fmt.Sprintf("the API shows template %q (script %s) but no such template is defined before or after the request, nor asked for by it", id, scriptName(s)), noted
+		}
+		if !match {
+			return "mixed/template-script", fmt.Sprintf("template %q is shown with script %s, which is neither the one before the request, nor the one after it, nor the one it asks for", id, scriptName(s)), noted
+		}
+	}
+	return "", "", noted
+}
+
+func runCrash(c Case, cc *kit.Case) { runCrashMode(c, cc, false) }
+
+// runCrashEntityWise judges the boundaries of a known non-atomic request by the entity-wise
+// rule only (unit CrashNonAtomic).
+func runCrashEntityWise(c Case, cc *kit.Case) { runCrashMode(c, cc, true) }
+
+func runCrashMode(c Case, cc *kit.Case, entityOnly bool) {
 	if len(c.Ops) == 0 {
 		return
 	}
@@ -149,7 +333,16 @@ func runCrash(c Case, cc *kit.Case) {
 		verdict = "accepted"
 	}
 	r.label(fmt.Sprintf("target %s %s: %d transactions", kind, verdict, min(len(snaps), 6)))
-	if len(snaps) >= 2 {
+	if entityOnly {
+		cls := crashClass(pre, target)
+		if len(snaps) >= 2 && cls != "" {
+			cc.NonTrivial()
+		}
+		if cls == "" {
+			cls = "none (request of an atomic kind)"
+		}
+		r.label("non-atomic class " + strings.TrimPrefix(cls, "crash:") + " " + verdict)
+	} else if len(snaps) >= 2 {
 		cc.NonTrivial()
 	}
 	preR, postR := pre.clone(), post.clone()
@@ -196,9 +389,31 @@ func runCrash(c Case, cc *kit.Case) {
 			m = preR
 			r.label("boundary shows the pre-request catalogue")
 		default:
+			// first the entity-wise rule: a lost, invented or half-written object is a failure
+			// of its own, whatever is known about the atomicity of the request
+			class, msg, noted := entityWise(target, preR, postR, o)
+			for _, n := range noted {
+				r.label("inner boundary: " + n)
+			}
+			if class != "" {
+				bads = append(bads, bad{i + 1, class, fmt.Sprintf("%s\n    vs the catalogue before the request: %s; vs the one after it: %s\n    observed: %s", msg, dPre, dPost, fmtObserved(o))})
+				continue
+			}
+			shape := classifyCrash(target, preR, postR, o, dPre, dPost)
+			if entityOnly {
+				if i == len(snaps)-1 {
+					bads = append(bads, bad{i + 1, "last-boundary-not-post", fmt.Sprintf("the storage file after the last transaction does not hold the post-request catalogue: %s", dPost)})
+					continue
+				}
+				if strings.HasPrefix(shape, "vs-pre:") {
+					shape = "other mixture of the two catalogues"
+				}
+				r.label("boundary of a non-atomic request shows: " + shape)
+				continue
+			}
 			// "partial/...": the request is not atomic across a crash (one known-finding key
 			// per request kind: crash/<kind>/partial/*)
-			bads = append(bads, bad{i + 1, "partial/" + classifyCrash(target, preR, postR, o, dPre, dPost),
+			bads = append(bads, bad{i + 1, "partial/" + shape,
 				fmt.Sprintf("the catalogue is neither the one before the request (%s) nor the one after it (%s)\n    observed: %s", dPre, dPost, fmtObserved(o))})
 			continue
 		}
@@ -231,6 +446,10 @@ func runCrash(c Case, cc *kit.Case) {
 func crashGravity(class string) int {
 	class = strings.TrimPrefix(class, "partial/")
 	switch {
+	case strings.HasPrefix(class, "lost/"):
+		return 12
+	case strings.HasPrefix(class, "unexpected/"), strings.HasPrefix(class, "mixed/"), class == "executing-without-definition":
+		return 11
 	case class == "some-tasks-changed-others-not":
 		return 9
 	case class == "task-under-both-ids", class == "task-under-neither-id":
@@ -309,8 +528,12 @@ func crashClass(sh *model, op Op) string {
 }
 
 func drawTarget(t *rapid.T, r *kit.Rec, sh *model) Op {
+	return drawTargetKind(t, r, sh, rapid.IntRange(0, 11).Draw(t, "target"))
+}
+
+func drawTargetKind(t *rapid.T, r *kit.Rec, sh *model, k int) Op {
 	exT, exP := existingTask(sh), existingTmpl(sh)
-	switch k := rapid.IntRange(0, 11).Draw(t, "target"); k {
+	switch k {
 	case 0: // rename
 		return Op{K: "update", ID: drawID(t, "id", taskPool(sh), badTaskID, 95, exT), NewID: drawID(t, "newid", taskIDs, badTaskID, 90, freeTask(sh)),
 			Status: pick(t, "status", []string{"", "", "enabled", "disabled"})}
@@ -374,10 +597,96 @@ func genCrash(r *kit.Rec) func(t *rapid.T) Case {
 	}
 }
 
+// Formerly excluded target class of the CrashNonAtomic unit (genuine defect found by it, repaired in
+// /repo by a fix: commit, witness replays/C14/CrashNonAtomic-rolled-back-template-rename-loses-template.json;
+// the class is searched again - put it back into the map to exclude it): a template update WITH id change that is
+// rolled back (an enabled associated task does not start with the new script). The rollback
+// removes the new template and then, in another transaction, re-creates the old one: at the
+// boundary in between the template exists under neither id (crash/template-rename/lost/...).
+var excludedCrashNonAtomic = map[string]bool{}
+
+// nonAtomicKnownClass names the excluded class a target of the CrashNonAtomic unit falls into.
+func nonAtomicKnownClass(sh *model, op Op, p prediction) string {
+	if op.K == "tupdate" && op.NewID != "" && op.NewID != op.ID && !p.accept && p.late == "template-update-rolled-back" {
+		return "crash:template-rename-rolled-back"
+	}
+	return ""
+}
+
+// genCrashNonAtomic: a history followed by a target request of one of the kinds that are
+// known not to be atomic across a crash (the classes the Crash unit excludes). The history
+// is given what these requests work on: if it leaves no task, a plain task is created; the
+// scenario of genHistory (a template with 0-3 tasks) supplies templated tasks.
+func genCrashNonAtomic(r *kit.Rec) func(t *rapid.T) Case {
+	return func(t *rapid.T) Case {
+		n := rapid.IntRange(0, 10).Draw(t, "n")
+		ops, sh := genHistory(t, r, excludedCatalogue, n, false)
+		if len(sh.tasks) == 0 {
+			op := Op{K: "create", ID: pick(t, "seed-id", taskIDs), Script: sStream0, DBRPs: []DBRP{{"db", "rp"}}, Status: drawStatus(t)}
+			ops = append(ops, op)
+			sh = advance(sh, op)
+		}
+		var last *Op
+		for tries := 0; tries < 30; tries++ {
+			// 0 rename, 1 template update / rename, 3 create from template, 4 delete, 5 template assignment (+ rename)
+			op := drawTargetKind(t, r, sh, pick(t, "kind", []int{0, 1, 1, 1, 3, 3, 4, 4, 5, 5}))
+			p := predict(sh, op)
+			if !p.accept && p.late != "" && isExcluded(excludedCatalogue, p.late) {
+				r.Exclude(p.late)
+				continue
+			}
+			if p.known != "" && isExcluded(excludedCatalogue, p.known) {
+				r.Exclude(p.known)
+				continue
+			}
+			if c := nonAtomicKnownClass(sh, op, p); c != "" && isExcluded(excludedCrashNonAtomic, c) {
+				r.Exclude(c)
+				continue
+			}
+			last = &op
+			if crashClass(sh, op) == "" || (!p.accept && tries < 8) {
+				// not of a non-atomic kind on this catalogue (e.g. delete of a plain task), or
+				// predicted to be rejected: draw again (rejected ones are kept after 8 tries)
+				continue
+			}
+			return Case{Ops: append(ops, op)}
+		}
+		if last != nil {
+			return Case{Ops: append(ops, *last)}
+		}
+		return Case{Ops: append(ops, Op{K: "tdelete", ID: "p1"})}
+	}
+}
+
 var crashAssumptions = append([]string{
 	"crash points are the commit boundaries of task_store transactions (Bolt commits are atomic; torn writes are out of scope); the file is copied by the committing goroutine right after the commit returns, while no other writer exists",
 	"recovery oracle (DESIGN C14): the catalogue shown by a server opened on the copy equals the pre-request or the post-request catalogue (tasks, templates, associations) and every enabled task whose start succeeds is executing",
+	"a boundary that shows neither catalogue is first judged object by object (entity-wise rule, implied by the recovery oracle: nothing defined before and after the request is lost, nothing is shown that neither catalogue holds, every object carries its definition from before or after the request, shown tasks execute iff enabled and startable); a breach is reported as crash/<kind>/lost/..., /unexpected/..., /mixed/... and never as crash/<kind>/partial/..., the signature family of the known non-atomic requests (whose witnesses all satisfy the entity-wise rule on the unchanged tree)",
 }, assumptions...)
+
+const crashNonAtomicRule = "rapid: history of <= 12 task/template API requests followed by one target request of a kind known not to be atomic across a crash " +
+	"(task rename, create-from-template, template assignment, delete of a templated task, template update with associated tasks, template rename); the Bolt file is " +
+	"copied after every committed task_store transaction of the target request and a new server is opened on every copy (all boundaries enumerated); every boundary is " +
+	"judged by the entity-wise rule, the last one must hold the post-request catalogue; non-trivial = the target is of one of these kinds and committed >= 2 transactions; distinct by case hash"
+
+var crashNonAtomicAssumptions = append([]string{
+	"entity-wise rule (weaker than, and implied by, the recovery oracle of DESIGN C14; taken from the property statement 'the API shows exactly the tasks that were successfully defined with their last accepted definition ... after a restart every enabled task is executing again', quantified over restarts from the storage file at any transaction boundary): " +
+		"at every boundary (a) every task / template that is defined before the request and not deleted by it is shown by the API under its id, or - while the request renames it to a free id - under the old or the new id; " +
+		"(b) every task / template shown has an id that the catalogue before or after the request holds; (c) every task shown carries, as a whole (script, template id, dbrps, vars, status), its definition from before or from after the request, every template its script from before or after; " +
+		"a request cut short by a crash was never answered, so 'after the request' is read as the catalogue the answer led to OR the catalogue the request asks for (a template update that is rolled back and rejected in the end has written the new definitions first), and (a) holds only for objects that are in both; " +
+		"(d) every task shown is executing iff it is enabled and starting that definition succeeds (that the error of a refused start is recorded is NOT demanded at an inner boundary: it can hold a definition that never passed the API's validation, e.g. the script of a template update that is rolled back; the case is labelled). Associations are not judged at these boundaries (known findings crash/*/partial/*-with-assoc-*)",
+	"a mixture of the two catalogues at an inner boundary of these request kinds (task under both ids, template changed and only some tasks, ...) is the known finding crash/<kind>/partial/... and is only labelled here; the strict recovery oracle is applied to these kinds by the saved witnesses replays/C14/Crash-*.json",
+}, crashAssumptions...)
+
+func TestCrashNonAtomic(t *testing.T) {
+	r := kit.NewRec("C14", "CrashNonAtomic", crashNonAtomicRule, crashNonAtomicAssumptions...)
+	kit.Check(t, r, genCrashNonAtomic(r), runCrashEntityWise)
+}
+
+func TestReplayCrashNonAtomic(t *testing.T) {
+	r := kit.NewRec("C14", "CrashNonAtomic", crashNonAtomicRule, crashNonAtomicAssumptions...)
+	kit.Replay(t, r, runCrashEntityWise)
+}
 
 func TestCrash(t *testing.T) {
 	r := kit.NewRec("C14", "Crash", crashRule, crashAssumptions...)
